@@ -5,6 +5,7 @@ import (
 	"fmt"
 	"strings"
 
+	"github.com/zitadel/oidc/v3/pkg/op"
 	"pgregory.net/rapid"
 
 	"verif/harness/vkit"
@@ -44,6 +45,12 @@ type Step struct {
 	Pres           string `json:"pres"`
 	GrantAssertion string `json:"grant_assertion,omitempty"`
 	TokenKind      string `json:"token_kind,omitempty"`
+	// Case.Multi only: the host of the provider this request arrives on ("" = a | b | c) and the audience of its assertions (Multi.Aud)
+	Host string `json:"host,omitempty"`
+	Aud  string `json:"aud,omitempty"`
+	// Fault: a storage fault / the death of the request's context during THIS earlier request (Case.Fault; ctx_test.go): what
+	// went wrong for an earlier request must not change the standing of a later one
+	Fault string `json:"fault,omitempty"`
 }
 
 type History struct {
@@ -153,6 +160,7 @@ type site struct {
 	sut    *vkit.SUT
 	ag     *vkit.Agent
 	n      int // requests so far (names of seeded device codes)
+	hook   *ctxHook
 }
 
 func (c Case) newSite(name, router string, second bool) *site {
@@ -168,6 +176,11 @@ func (c Case) newSite(name, router string, second bool) *site {
 	spec.Post, spec.PKJWT, spec.Refresh = c.Flags.Post, c.Flags.PKJWT, c.Flags.Refresh
 	spec.Caps = vkit.Caps{CC: c.Flags.CC, TE: c.Flags.TE, Device: c.Flags.Device}
 	spec.LaxSubject = c.Flags.LaxSub
+	if c.Multi != nil {
+		spec.IssuerMode, spec.Issuer = c.Multi.Mode, c.Multi.Path
+	}
+	s.hook = &ctxHook{}
+	spec.WrapStorage = func(inner op.Storage) op.Storage { return wrapStorage(inner, s.hook) }
 	if second {
 		spec.CryptoKey = 0x5a // the two providers do not share the key that seals opaque tokens and codes
 	}
@@ -244,7 +257,7 @@ func genReg(t *rapid.T, pfx string, like *Reg) Reg {
 // genHist draws the history and, when there is one, sometimes re-draws the presentation of the request under test from the
 // credential-confusion family.
 func genHist(t *rapid.T, c *Case) {
-	if rapid.IntRange(0, 9).Draw(t, "hist.on") >= 5 {
+	if on := rapid.IntRange(0, 9).Draw(t, "hist.on"); on >= 5 && !(c.Multi != nil && on < 8) {
 		return
 	}
 	h := &History{}
@@ -268,6 +281,9 @@ func genHist(t *rapid.T, c *Case) {
 	}
 	c.Hist = h
 	n := rapid.IntRange(0, 3).Draw(t, "hist.steps")
+	if c.Multi != nil && n == 0 {
+		n = rapid.IntRange(0, 2).Draw(t, "hist.steps.multi")
+	}
 	for i := 0; i < n; i++ {
 		pfx := fmt.Sprintf("hist.step%d.", i)
 		var s Step
@@ -275,6 +291,10 @@ func genHist(t *rapid.T, c *Case) {
 			s.On = "second"
 		}
 		s.Who = rapid.SampledFrom([]string{"x", "x", "x", "z", "z"}).Draw(t, pfx+"who")
+		if h.Change != "" && rapid.Bool().Draw(t, pfx+"changed") {
+			// the registration that is about to change is used before the change, on the provider where it changes
+			s.Who, s.On = "x", ""
+		}
 		tg := rapid.SampledFrom(stepTargets).Draw(t, pfx+"target")
 		if same := (stepTarget{c.Endpoint, c.Grant, c.TokenKind}); hasTarget(same) && rapid.Bool().Draw(t, pfx+"target.same") {
 			tg = same // state kept by an endpoint is most likely consulted by the same endpoint
@@ -288,6 +308,26 @@ func genHist(t *rapid.T, c *Case) {
 		} else {
 			s.Pres = rapid.SampledFrom(presentations).Draw(t, pfx+"pres")
 		}
+		if s.Who == "x" && s.On == "" && (h.Change == "rotated" || h.Change == "created") && rapid.IntRange(0, 2).Draw(t, pfx+"pres.future") == 0 {
+			// the credential of the registration TO COME, presented too early: wrong now (it is the other registration's / there
+			// is no registration yet), right at the time of the request under test
+			s.Pres = futurePres(c.Reg.AuthMethod, h.Change)
+		}
+		if rapid.IntRange(0, 7).Draw(t, pfx+"fault.on") == 0 {
+			site := rapid.SampledFrom(faultSiteNames).Draw(t, pfx+"fault.site")
+			kind := rapid.SampledFrom(append(append([]string{}, storeKinds...), ctxKinds...)).Draw(t, pfx+"fault.kind")
+			s.Fault = site
+			if kind != "error" {
+				s.Fault += ":" + kind
+			}
+		}
+		if c.Multi != nil {
+			// requests of one history arrive on different hosts of the provider; their assertions are mostly addressed to their own host
+			s.Host = rapid.SampledFrom(hostKeys).Draw(t, pfx+"host")
+			if usesAssertion(s.Pres, s.Grant) && rapid.IntRange(0, 4).Draw(t, pfx+"aud.on") == 0 {
+				s.Aud = rapid.SampledFrom(append(append([]string{}, audHostKeys...), audNearMiss...)).Draw(t, pfx+"aud")
+			}
+		}
 		h.Prelude = append(h.Prelude, s)
 	}
 	if len(h.Prelude) > 0 && rapid.Bool().Draw(t, "hist.pres.confused") {
@@ -296,14 +336,77 @@ func genHist(t *rapid.T, c *Case) {
 			c.BodyID, c.RiderIn = "", ""
 		}
 	}
+	if len(h.Prelude) > 0 && (h.Change == "deleted" || (h.Change == "rotated" && h.Alt.Method != "")) && rapid.Bool().Draw(t, "hist.pres.stale") {
+		// the presentation that WAS right for the registration in force before the change (method changed / client deleted)
+		c.Pres = stalePres(*c)
+		c.BodyID, c.RiderIn = "", ""
+	}
+	if c.Multi != nil && len(h.Prelude) > 0 && rapid.Bool().Draw(t, "hist.aud.earlier") {
+		// the confusion of issuers: an otherwise genuine assertion addressed to the host an EARLIER request of this history
+		// arrived on (which is its own host as well when the two coincide)
+		if !usesAssertion(c.Pres, c.Grant) {
+			c.Pres = "assert-right"
+		}
+		c.Multi.Aud = hostKey(h.Prelude[rapid.IntRange(0, len(h.Prelude)-1).Draw(t, "hist.aud.earlier.step")].Host)
+	} else if c.Multi != nil && !usesAssertion(c.Pres, c.Grant) {
+		c.Multi.Aud = ""
+	}
+}
+
+// futurePres: how a caller presents, before a registration change, the credential that will be right after it.
+func futurePres(method, change string) string {
+	if change == "created" {
+		return rightPres(method)
+	}
+	switch method {
+	case mBasic:
+		return "basic-wrong"
+	case mPost:
+		return "post-wrong"
+	case mPKJWT:
+		return "assert-wrongkey"
+	}
+	return "none"
+}
+
+// stalePres: how the named client authenticated correctly BEFORE the registration change, seen from the time of the request
+// under test (credentials of the former registration are the "wrong" ones now).
+func stalePres(c Case) string {
+	h := c.Hist
+	if h.Change == "deleted" {
+		return rightPres(c.Reg.AuthMethod)
+	}
+	was := h.Alt.Method
+	if was == "" {
+		was = c.Reg.AuthMethod
+	}
+	switch was {
+	case mBasic:
+		if h.Alt.Secret {
+			return "basic-wrong"
+		}
+		return "basic-right"
+	case mPost:
+		if h.Alt.Secret {
+			return "post-wrong"
+		}
+		return "post-right"
+	case mPKJWT:
+		if h.Alt.Key {
+			return "assert-wrongkey"
+		}
+		return "assert-right"
+	}
+	return "none"
 }
 
 // ---- labels ---------------------------------------------------------------------------------------
 
 type stepOutcome struct {
-	step   Step
-	served bool
-	v      int
+	step       Step
+	served     bool
+	v          int
+	faultFired bool
 }
 
 func credKind(pres string) string {
@@ -345,6 +448,29 @@ func histLabels(c Case, log []stepOutcome, res *vkit.Result) {
 			res.Label("hist:alt:method")
 		}
 	}
+	if c.Multi != nil {
+		hosts := map[string]bool{hostKey(c.Multi.Host): true}
+		assertedElsewhere, audOfEarlier := false, false
+		for _, o := range log {
+			hosts[hostKey(o.step.Host)] = true
+			if hostKey(o.step.Host) != hostKey(c.Multi.Host) && usesAssertion(o.step.Pres, o.step.Grant) {
+				assertedElsewhere = true
+				if c.Multi.Aud == hostKey(o.step.Host) {
+					audOfEarlier = true
+				}
+			}
+		}
+		res.Label(fmt.Sprintf("multi:hosts-in-history=%d", len(hosts)))
+		if usesAssertion(c.Pres, c.Grant) && assertedElsewhere {
+			res.Label("multi:assertion-after-assertion-on-another-host")
+			if audOfEarlier {
+				res.Label("multi:assertion-addressed-to-the-host-of-an-earlier-assertion")
+			}
+		}
+	}
+	if len(log) > 0 && (h.Change == "deleted" || (h.Change == "rotated" && h.Alt.Method != "")) && c.Pres == stalePres(c) {
+		res.Label("hist:presentation-that-was-right-before-the-change:" + h.Change)
+	}
 	stale := c.Pres == "basic-wrong" || c.Pres == "post-wrong" || c.Pres == "assert-wrongkey"
 	partial := c.Pres == "none" || c.Pres == "nothing" || c.Pres == "basic-empty"
 	for _, o := range log {
@@ -358,6 +484,18 @@ func histLabels(c Case, log []stepOutcome, res *vkit.Result) {
 			out = "served"
 		}
 		res.Label("prelude:"+on+":"+s.Who+":"+out, "prelude:pres:"+s.Pres, "prelude@"+where(Case{Endpoint: s.Endpoint, Grant: s.Grant}))
+		if s.Fault != "" {
+			res.Label("prelude:fault-planned")
+			if o.faultFired {
+				res.Label("hist:storage-failed-for-an-earlier-request")
+				if s.Who == "x" && s.On == "" && s.Pres == c.Pres && credKind(s.Pres) != "" {
+					res.Label("hist:same-credential-after-storage-failure")
+				}
+			}
+		}
+		if s.Who == "x" && s.On == "" && !o.served && (h.Change == "rotated" || h.Change == "created") && s.Pres == futurePres(c.Reg.AuthMethod, h.Change) && c.Pres == rightPres(c.Reg.AuthMethod) && credKind(c.Pres) != "" {
+			res.Label("hist:credential-presented-before-it-became-right")
+		}
 		if !o.served || credKind(s.Pres) == "" {
 			continue
 		}
